@@ -334,7 +334,19 @@ func cancelPrograms() []*Program {
 	return []*Program{
 		progSingle(), withClosure(progSingle(), "single-c0", 0), withClosure(progSingle(), "single-c50", 50), noSig(progSingle(), "single-nosig"),
 		progChain(2), withClosure(progFanIn(), "fanin-c50", 50), progForeach(subProg(), 2), progUnrelatedHang(), progStopProducer(),
+		// a loop that is still waiting for its items / its wait_for when the cancel comes
+		progWaitForListLoop(), progLoopItemsFrom(),
 	}
+}
+
+// the items of the loop come from another step
+func progLoopItemsFrom() *Program {
+	p := progForeach(subProg(), 1)
+	p.Name = "loopitemsfrom"
+	p.Steps[0].Items = List{[]Node{O("v", E(sv("x"))), O("v", I(2))}}
+	p.Steps = append(p.Steps, pstep("x", O("v", E("$.input.n"))))
+	p.Outputs = []Output{{"success", O("d", E("$.steps.loop.outputs.success.data"))}}
+	return p
 }
 
 var altsCancel = []stepAlt{
@@ -395,6 +407,40 @@ func progDeployDep() *Program {
 	}, Outputs: []Output{{"success", O("r", E(sv("a")))}}}
 }
 
+// wait_for written as a list of tagged scalars (block sequence), for a plugin step and for a loop step
+func progWaitForList() *Program {
+	return &Program{Name: "waitforlist", Steps: []Step{
+		pstep("a", O("v", E("$.input.n"))),
+		pstep("b", O("v", I(2))),
+		{ID: "c", Input: O("v", I(3)), WaitFor: List{[]Node{E("$.steps.a.outputs.success"), E("$.steps.b.outputs.success")}}},
+	}, Outputs: []Output{
+		{"success", O("r", E(sv("c")))},
+		{"other", O("e", Opt{true, "$.steps.b.outputs.error.error"}, "a", E(sv("a")))}}}
+}
+
+func progWaitForListLoop() *Program {
+	p := progForeach(subProg(), 2)
+	p.Name = "waitforlistloop"
+	p.Steps[0].WaitFor = List{[]Node{E("$.steps.x.outputs.success")}}
+	p.Steps = append(p.Steps, pstep("x", O("v", E("$.input.n"))))
+	p.Outputs = []Output{
+		{"success", O("d", E("$.steps.loop.outputs.success.data"))},
+		{"other", O("e", E("$.steps.x.outputs.error.error"))}}
+	return p
+}
+
+// a step whose deployment configuration can never be computed is stopped by another step
+func progDeployDepStop() *Program {
+	return &Program{Name: "deploydepstop", Steps: []Step{
+		pstep("p", O("v", E("$.input.n"))),
+		pstep("q", O("v", I(2))),
+		{ID: "a", Input: O("v", I(1)), Deploy: O("deployer_name", Str("scripted"), "tag", E("$.steps.p.outputs.success.s")),
+			StopIf: E("$.steps.q.outputs.success")},
+	}, Outputs: []Output{
+		{"success", O("r", E(sv("a")))},
+		{"closed", O("c", E("$.steps.a.closed.result.cancelled"), "q", E(sv("q")))}}}
+}
+
 // a loop with more items than slots next to a step whose failure ends the run
 func progLoopSibling() *Program {
 	p := progLoop(3, 1, subProg(), "loopsibling")
@@ -406,7 +452,7 @@ func progLoopSibling() *Program {
 func catalogue() []*Program {
 	return []*Program{
 		progLoopSibling(),
-		progDeployDep(),
+		progDeployDep(), progDeployDepStop(), progWaitForList(), progWaitForListLoop(), progLoopItemsFrom(),
 		progSumExpr(), progSumExpr2(), progSumInts(), progStopEnable(),
 		progEnabledLit("enabledlit-false", false), progEnabledLit("enabledlit-true", true), progEnabledLit("enabledlit-no", "no"),
 		progForeachEnabledLit("loopenabledlit-true", true), progForeachEnabledLit("loopenabledlit-off", "off"),
@@ -609,6 +655,13 @@ func tagPrograms() []*Program {
 				{"strict", O("x", E(sv("a")), "y", E(sv("b")), "z", E(sv("c")))},
 				{"lenient", O("x", Opt{true, sv("a")}, "z", OneOf{Disc: "k", Opts: []Field{{"ok", E("$.steps.c.outputs.success")}, {"bad", E("$.steps.c.outputs.error")}}})},
 			}},
+		// optional expressions over two sources: present exactly when both were produced
+		{Name: "optmulti", Steps: []Step{pstep("a", O("v", E("$.input.n"))), pstep("b", O("v", I(4))), pstep("c", O("v", I(7)))},
+			Outputs: []Output{{"success", O("c", E(sv("c")), "m", O("both", Opt{true, ss("a") + " + " + ss("b")}, "one", Opt{true, ss("a")}))}}},
+		{Name: "optmultiin", Steps: []Step{pstep("a", O("v", E("$.input.n"))),
+			{ID: "b", Input: O("v", I(4)), Enabled: E("$.input.flag")},
+			{ID: "c", Input: O("v", I(7)), WaitFor: List{[]Node{O("both", Opt{true, ss("a") + " + " + ss("b")}, "one", Opt{true, ss("a")})}}}},
+			Outputs: []Output{{"success", O("c", E(sv("c")))}}},
 		// alternatives that are independent steps: several may be produced before the value is built
 		// (the consumer also waits for c, which the vectors make slow)
 		{Name: "oneofsteps", Steps: []Step{pstep("a", O("v", E("$.input.n"))), pstep("b", O("v", I(4))), pstep("c", O("v", I(7)))},
@@ -659,7 +712,7 @@ func tagPrograms() []*Program {
 
 func tagInputs(p *Program) []map[string]any {
 	switch p.Name {
-	case "enabled", "waitoptdisabled", "enabledep2":
+	case "enabled", "waitoptdisabled", "enabledep2", "optmultiin":
 		return []map[string]any{{"n": 5, "flag": true}, {"n": 5, "flag": false}}
 	}
 	return []map[string]any{{"n": 5}}
